@@ -309,7 +309,7 @@ Definition exit_record (c : cfg) (s : st) (top : frame) (anc : list frame) : st 
          warned := warned s |}
     else
       let dur := (f_end top + 18446744073709551616 - f_start top) mod 18446744073709551616 in
-      if ((time_filter <? dur) && (negb (has_caller c) || fcaller g)) || written g || ftrace g then
+      if ((time_filter <=? dur) && (negb (has_caller c) || fcaller g)) || written g || ftrace g then
         let '(_, anc', recs) := record_trace_data top anc in
         {| fc := f1; enabled := enabled s; cached := cached s; stack := anc'; ridx := ridx'; out := out s ++ recs;
            warned := warned s |}
